@@ -58,6 +58,13 @@ def native_check(cfg, env=None, seed=0, scale=1.0):
     r1 = complex(r1[0].item(), r1[1].item()) if r1.numel() == 2 else None
     if r1 is None or not C.close(r1, want[0, D - 1], tol):
         fails.append(("single element call form disagrees", None))
+    for i in range(D):
+        for j in range(D):
+            rij = st.rho(space[i], space[j])
+            z = complex(rij[0].item(), rij[1].item()) if rij.numel() == 2 else None
+            if z is None or not C.close(z, want[i, j], tol):
+                fails.append(("single element call form disagrees for the pair (%d, %d)" % (i, j), None))
+                break
     rd = st.rho(space, expand=False)
     if tuple(rd.shape) != (2, D) or not C.close(rd[0].numpy(), prob, tol) or np.any(rd[1].numpy() != 0):
         fails.append(("rho(v, expand=False) != [probability, 0]", None))
